@@ -83,7 +83,7 @@ func drawStructOf(t *rapid.T) reflect.Type {
 			// the ",string" option (numbers and booleans written as quoted text), alone and combined
 			switch f.Type.Kind() {
 			case reflect.Int, reflect.Int8, reflect.Int16, reflect.Int32, reflect.Int64, reflect.Uint16, reflect.Uint32, reflect.Uint, reflect.Uint64, reflect.Float32, reflect.Float64, reflect.Bool:
-				f.Tag = reflect.StructTag([]string{`json:",string"`, `json:",omitempty,string"`, fmt.Sprintf(`json:"s%d,string"`, i)}[sim.Intn(t, 3, "stringtag")])
+				f.Tag = reflect.StructTag([]string{`json:",string"`, `json:",omitempty,string"`, fmt.Sprintf(`json:"s%d,string"`, i), `json:",string,omitempty"`, fmt.Sprintf(`json:"s%d,string,omitempty"`, i)}[sim.Intn(t, 5, "stringtag")])
 			}
 		case 1:
 			f.Tag = reflect.StructTag(fmt.Sprintf(`json:"t%d"`, i))
